@@ -18,6 +18,7 @@ import re
 from sa.interp import Interp, Scenario, Sym, Const, Bytes, Enum, render, render_items, merge_consts, sl, lin_norm
 from sa.loader import AnalysisError, dotted
 from sa import sigdata
+from sa.templates import b2i_forms
 
 noinline = lambda f: False  # noqa: E731
 
@@ -149,8 +150,7 @@ def check_capture(rep, prog, ci, raw):
     R = '%s.%s' % (S, raw)
     outs = Interp(prog, Scenario(args=at(pf, p1=Sym('packet')), inline=noinline)).run(pf)
     rep.analysed['paths'] += len(outs)
-    HL = '%s.bytes_to_int(%s)' % (S, sl('packet', ('', 2)))
-    good = sl('packet', ('', '2 + %s' % HL))
+    good = [sl('packet', ('', '2 + %s' % HL)) for HL in b2i_forms(S, sl('packet', ('', 2)))]
     pure = ('len', 'bytes', 'bytearray', 'memoryview', 'id', 'type', 'isinstance')
     for s in outs:
         stores = [(i, e) for i, e in enumerate(s.events) if e[0] == 'store' and e[1] == R]
@@ -159,7 +159,7 @@ def check_capture(rep, prog, ci, raw):
                           'parse must store the received hashed area exactly once', where=pf.where, found=[e[2] for _, e in stores])
             continue
         si, se = stores[0]
-        rep.check(se[2] == good, 'C05.1', 'SubPackets.parse', '%s = %s' % (R, se[2]),
+        rep.check(se[2] in good, 'C05.1', 'SubPackets.parse', '%s = %s' % (R, se[2]),
                   'the capture must be the first 2 + hl octets of the buffer as it was received (length field included), '
                   'taken before anything was consumed', where='%s:%d' % (pf.module.relpath, se[3]),
                   expected='packet[:2 + hl] with hl = bytes_to_int(packet[:2])', found=se[2])
